@@ -188,6 +188,11 @@ impl Expr {
     }
 
     fn contains_numeric_field(expr: &Expr) -> bool {
+        // the value of an arithmetic expression is a number, whatever its operands are
+        if expr.arithmetic_op.is_some() {
+            return true;
+        }
+
         let field = match expr.field {
             Some(ref field) => field.is_numeric_field(),
             None => false,
